@@ -328,7 +328,7 @@ def execS (op : SOp) (w : W) : Option Outcome :=
             | .prim =>                                         -- Buffer
               let w : W := { w with c := w.c.rem cloned }
               if i < 0 then some (.throw w) else okW w
-  | .remove i => match w.pop with                             -- vm.go:1527-1566
+  | .remove i => match w.pop with                             -- vm.go:1527-1570
     | none => none
     | some (_, w) => match w.pop with
       | none => none
@@ -347,8 +347,10 @@ def execS (op : SOp) (w : W) : Option Outcome :=
           let ch := chOf w.c.heap id
           match ch[2 * i.toNat]?, ch[2 * i.toNat + 1]? with
           | some k, some v =>
-            let w : W := if rcOf w.c.heap id ≠ 0 then { w with c := (w.c.rem k).rem v } else w
-            okW (w.setHeap (setCh w.c.heap id ((ch.eraseIdx (2 * i.toNat + 1)).eraseIdx (2 * i.toNat))))
+            -- the element is detached first (t.Drop), then discounted if the map was referenced
+            let isRef : Bool := rcOf w.c.heap id ≠ 0
+            let w := w.setHeap (setCh w.c.heap id ((ch.eraseIdx (2 * i.toNat + 1)).eraseIdx (2 * i.toNat)))
+            okW (if isRef then { w with c := (w.c.rem k).rem v } else w)
           | _, _ => none
         | .prim => none
   | .clearitems => match w.pop with                           -- vm.go:1568-1607
@@ -629,7 +631,7 @@ def step (s : St) (op : Op) (unw : Option (Nat × Bool)) (extFault : Bool) : Opt
 /-! ### observations -/
 
 def Frame.roots (f : Frame) : List Item :=
-  slotItems f.own ++ slotItems f.locals ++ slotItems f.args ++ slotItems f.static
+  slotItems f.own ++ slotItems f.locals ++ slotItems f.args ++ (if f.isScript then slotItems f.static else [])
 
 def St.roots (s : St) : List Item := s.base ++ s.frames.flatMap Frame.roots
 
